@@ -1,6 +1,6 @@
 PLAN['C01'] = dict(
     level='exploration',
-    units=std_units('C01', [('asan', 'sdcz', 1200, 200000), ('asan-vb', 'sdcz', 400, 40000), ('asan-i64', 'sdcz', 300, 40000)], chunk=100),
+    units=std_units('C01', [('asan', 'sdcz', 6000, 200000), ('asan-vb', 'sdcz', 2000, 40000), ('asan-i64', 'sdcz', 1500, 40000)], chunk=100),
     rule='seeded random square systems (11 pattern classes x 8 value classes, n 1..60, thorough tail to n=400) x ColPerm x u x SymmetricMode x NC/NR x nrhs 0..4 x ldb padding x tuning table; '
          'non-trivial = info 0, n>=2, nrhs>=1; distinct = hash(pattern, ColPerm, storage, SymmetricMode, outcome)',
     counter_names=['sum of residual/bound in per-mille', 'max residual/bound in per-mille'],
